@@ -343,11 +343,12 @@ def cases(tier):
     out = []
     mats = direction_matrices(tier)
     if tier == "quick":
-        voxels = [(1, 1, 1), (0.5, 2, 3)]
+        voxels = [(1, 1, 1), (0.5, 2, 3), (0.001, 0.001, 0.005)]
         transl = [(0, 0, 0), (10, -20, 5.5)]
         shapes = [(3, 4, 5)]
     else:
-        voxels = [(1, 1, 1), (0.5, 2, 3), (0.02, 0.02, 0.02), (1, 1, 2.5)]
+        voxels = [(1, 1, 1), (0.5, 2, 3), (0.02, 0.02, 0.02), (1, 1, 2.5),
+                  (0.001, 0.001, 0.005), (4e-6, 4e-6, 4e-5), (250, 250, 1)]
         transl = [(0, 0, 0), (10, -20, 5.5), (-0.01, 0, 1e3)]
         shapes = [(3, 4, 5), (1, 1, 1), (7, 2, 1)]
     for name, m in mats:
